@@ -43,7 +43,7 @@ P == Len(lead)
 Case == [lead |-> lead, prefix |-> prefix, suffix |-> suffix, crlf |-> crlf, ending |-> ending, ltext |-> ltext, wrap |-> wrap,
          head_line |-> HeadLine(P), link_line |-> LinkLineW(P, wrap), block_line |-> HeadLine(P) + 2, ref_line |-> RefLineW(P, wrap), item_line |-> ItemLineW(P, wrap),
          link_start |-> LinkStart(prefix), link_end |-> LinkEndT(prefix, ltext), url_start |-> UrlStartT(prefix, ltext),
-         url_end |-> UrlEndT(prefix, ltext), last_line |-> ItemLineW(P, wrap)]
+         url_end |-> UrlEndT(prefix, ltext), quote_line |-> QuoteLineW(P, wrap), last_line |-> QuoteLineW(P, wrap)]
 
 Emit == done => PrintT(<<"CASE", ToJson(Case)>>)
 
